@@ -13,6 +13,7 @@ import (
 	"time"
 
 	"verifsim/choice"
+	"verifsim/sched"
 )
 
 var errnoByName = map[string]syscall.Errno{
@@ -32,6 +33,7 @@ const MaxOps = 200000
 // op records an operation and returns the fault planned for it, if any.
 func op(kind, path string) (seq int, f *Fault) {
 	GateWait()
+	sched.Yield("fs." + kind) // with several goroutines in the program: who performs the next file operation is the scheduler's choice
 	mu.Lock()
 	defer mu.Unlock()
 	if cur == nil {
